@@ -739,6 +739,18 @@ class Evaluator:
                 return Const(val)
             except Exception:
                 pass
+        # compiled pattern: re.compile(p).match(s) is re.match(p, s)
+        if isinstance(recv, App) and recv.op == "call:re.compile" and recv.args and not kwargs and starkw is None \
+                and ((name in ("match", "fullmatch", "search", "findall", "finditer", "split") and len(args) == 1)
+                     or (name in ("sub", "subn") and len(args) == 2)):
+            flags = {}
+            rest = list(recv.args[1:])
+            if len(rest) == 1 and isinstance(rest[0], App) and rest[0].op == "kw":
+                flags = {"flags": rest[0].args[1]}
+            elif len(rest) == 1:
+                flags = {"flags": rest[0]}
+            if len(rest) <= 1:
+                return self.call_ext("re." + name, [recv.args[0]] + list(args), flags, None, e, st, fr)
         # hash object idiom
         if isinstance(recv, App) and recv.op == "hashobj":
             if name == "update":
